@@ -182,6 +182,17 @@ struct Mon {
       for (i128 dy : {(i128)-1, (i128)0, (i128)1, (i128)2, (i128)399, (i128)400, (i128)401, (i128)402, (i128)403, (i128)404, (i128)801, (i128)802, (i128)1201})
         for (int d : {-3600, -2, -1, 0, 1, 2, 3600}) add_L(orc::days_from_civil(Y0 + dy, 1, 1) * 86400 + d);
     }
+    // calendar anchors independent of the zone: year and leap-day boundaries in negative years, around year 0 and at
+    // multiples of 400 (era arithmetic of civil differences), before and after the recorded data
+    for (i128 y : {(i128)-1201, (i128)-800, (i128)-799, (i128)-401, (i128)-400, (i128)-399, (i128)-398, (i128)-101, (i128)-100, (i128)-4, (i128)-1, (i128)0, (i128)1, (i128)4,
+                   (i128)100, (i128)400, (i128)401, (i128)1600, (i128)1900, (i128)2000, (i128)2100, (i128)2400, (i128)9999, (i128)10000}) {
+      for (int d : {-3600, -1, 0, 1, 3600}) {
+        add_L(orc::days_from_civil(y, 1, 1) * 86400 + d);
+        add_L(orc::days_from_civil(y, 3, 1) * 86400 + d);
+      }
+      add_i(orc::days_from_civil(y, 1, 1) * 86400);
+      add_i(orc::days_from_civil(y, 3, 1) * 86400 - 1);
+    }
     // limits of the civil domain
     for (int k = 0; k < 6; ++k) {
       add_L(civ_max_L - k);
